@@ -18,6 +18,7 @@ def build_types():
         InputField("req", NonNullType(String)),
         InputField("c", color, default_value=1),
         InputField("snake_name", Int, python_name="snakeName"),
+        InputField("snake_def", Int, default_value=9, python_name="snakeDef"),        # a default AND another python name: filled in under the python name
         InputField("again", inner),
     ])
     outer = InputObjectType("Outer", [
